@@ -50,7 +50,7 @@ class C03(Prop):
             "m <= 7, n <= 6 against brute force; planted single-peaked profiles (random axis, outside-in votes) up to "
             "m = 30, n = 200 with shuffled storage and arbitrary ids, and one-swap perturbations; non-trivial = >= 2 "
             "orders and >= 3 alternatives")
-    budget = {"quick": 300, "thorough": 20000}
+    budget = {"quick": 800, "thorough": 20000}
     anchors = [("preflibtools.properties.subdomains.ordinal.singlepeaked.singlepeakedness", "is_single_peaked"),
                ("preflibtools.properties.subdomains.ordinal.singlepeaked.singlepeakedness", "is_single_peaked_axis"),
                ("preflibtools.instances.preflibinstance.ordinal", "OrdinalInstance.flatten_strict")]
@@ -69,8 +69,12 @@ class C03(Prop):
             if rng.random() < (1.0 if deep or self.tier == "thorough" else 0.25):
                 yield {"kind": "profile", "alts": [1, 2, 3, 4], "orders": [list(o) for o in sub], "planted": None}
         for i in range(n):
+            for c in self._random_case(rng):
+                yield gen.strict_case_extras(rng, c)
+
+    def _random_case(self, rng):
             r = rng.random()
-            if r < 0.45:
+            if r < 0.4:
                 m = rng.randint(1, 7)
                 alts = gen.alt_ids(rng, m, zero_ok=True)
                 orders = [list(o) for o in gen.strict_orders(rng, alts, rng.randint(1, 6))]
@@ -78,9 +82,14 @@ class C03(Prop):
                        "orders": orders, "planted": None}
             else:
                 m = rng.choice([3, 4, 5, 6, 7, 9, 12, 20, 30])
+                few = r > 0.8        # two or three voters on a long axis: many rounds with a single last alternative
+                if few:
+                    m = rng.choice([9, 12, 16, 20, 30])
                 alts = gen.alt_ids(rng, m, zero_ok=True)
                 axis = gen.perm(rng, alts)
                 nn = rng.choice([2, 3, 5, 8, 20, 60, 200]) if m > 7 else rng.randint(2, 8)
+                if few:
+                    nn = rng.choice([2, 2, 2, 3])
                 votes = [[c[0] for c in v] for v in sp_votes(rng, axis, nn)]
                 orders = [list(o) for o in dict.fromkeys(map(tuple, votes))]
                 planted = True
@@ -97,8 +106,8 @@ class C03(Prop):
 
     def run_impl(self, case):
         from preflibtools.properties.subdomains.ordinal.singlepeaked.singlepeakedness import is_single_peaked
-        prof = [(tuple((a,) for a in o), 1) for o in case["orders"]]
-        inst = gen.make_ordinal(prof, alts=case["alts"], data_type="soc")
+        inst = gen.strict_case_instance(case, is_single_peaked)
+        self.count("built:" + ("grown" if case.get("grow") else "direct") + ("+mult" if case.get("mults") else ""))
         r = call(is_single_peaked, inst)
         if r[0] == "ok":
             v, ax = r[1]
@@ -150,9 +159,14 @@ class C03(Prop):
 
     def shrink_candidates(self, case):
         os_ = case["orders"]
+        yield from gen.strict_case_shrinks(case)
+        ms = case.get("mults")
         for i in range(len(os_)):
             if len(os_) > 1:
-                yield dict(case, orders=os_[:i] + os_[i + 1:], planted=None)
+                c2 = dict(case, orders=os_[:i] + os_[i + 1:], planted=None)
+                if ms:
+                    c2["mults"] = ms[:i] + ms[i + 1:]
+                yield c2
         if len(case["alts"]) > 2:
             for x in case["alts"]:
                 o2 = [[a for a in o if a != x] for o in os_]
